@@ -5,6 +5,7 @@ CONSTANTS
   BaseSeq <- BasesAll
   WrapSeq <- WrapsAll
   RenSeq <- RenCat
+  DocSet <- DocBoth
   Family = "rot"
   MaxFields = 4
   MaxDepth = 3
